@@ -1,9 +1,173 @@
-import Quanto.Module
+/-
+C08 — `quantize(model, modules=…, weights=…, activations=…)` replaces, in place and at any nesting
+depth, exactly the Linear and Conv2d modules (and LayerNorm only when activations are quantized)
+selected by the optional filter, and leaves every other module untouched; plus the decision
+table of `QModuleMixin.forward`.  Helper definitions (`Mod.at?`, `Mod.skeleton`, `Mod.ids`,
+`DecidableEq Mod`) and the mutual inductions live in `Proofs/C08/Lemmas.lean`.
+-/
+import Proofs.C08.Lemmas
 namespace Quanto
+open C08
 
-/-- placeholder until the tree proofs land: a leaf outside the filter is kept -/
+/-- a leaf outside the filter is kept -/
 theorem C08_unselected_leaf_kept (a : QuantizeArgs) (id : Nat) (k : LeafKind) (q : Option QCfg)
     (h : selected a id = false) : quantizeTree a (.leaf id k q) = .leaf id k q := by
   simp [quantizeTree, h]
+
+/-! ### T1 — exactly the selected eligible leaves are swapped, at any depth -/
+
+theorem C08_exact_swap (a : QuantizeArgs) (t : Mod) (path : List String) :
+    match t.at? path with
+    | some (.leaf id k q) =>
+      (quantizeTree a t).at? path =
+        some (if selected a id && eligible a k then .leaf id k (some (twinCfg a k)) else .leaf id k q)
+    | some (.node id cls cs) =>
+      ∃ cs', (quantizeTree a t).at? path = some (.node id cls cs') ∧ cs'.map (·.1) = cs.map (·.1)
+    | none => (quantizeTree a t).at? path = none :=
+  swapSpec_tree a t path
+
+/-- the three cases of `C08_exact_swap` as separate implications -/
+theorem C08_exact_swap_leaf (a : QuantizeArgs) (t : Mod) (path : List String) (id : Nat)
+    (k : LeafKind) (q : Option QCfg) (h : t.at? path = some (.leaf id k q)) :
+    (quantizeTree a t).at? path =
+      some (if selected a id && eligible a k then .leaf id k (some (twinCfg a k)) else .leaf id k q) := by
+  have := C08_exact_swap a t path
+  rw [h] at this; exact this
+
+theorem C08_exact_swap_node (a : QuantizeArgs) (t : Mod) (path : List String) (id : Nat)
+    (cls : String) (cs : List (String × Mod)) (h : t.at? path = some (.node id cls cs)) :
+    ∃ cs', (quantizeTree a t).at? path = some (.node id cls cs') ∧ cs'.map (·.1) = cs.map (·.1) := by
+  have := C08_exact_swap a t path
+  rw [h] at this; exact this
+
+theorem C08_exact_swap_none (a : QuantizeArgs) (t : Mod) (path : List String)
+    (h : t.at? path = none) : (quantizeTree a t).at? path = none := by
+  have := C08_exact_swap a t path
+  rw [h] at this; exact this
+
+/-- the children of a container are the quantized children, under the same names -/
+theorem C08_children_mapped (a : QuantizeArgs) (id : Nat) (cls : String) (cs : List (String × Mod)) :
+    quantizeTree a (.node id cls cs) = .node id cls (cs.map fun p => (p.1, quantizeTree a p.2)) := by
+  rw [quantizeTree_node, quantizeChildren_eq_map]
+
+/-! ### T2 — classes, names, order and identities are preserved -/
+
+theorem C08_structure_preserved (a : QuantizeArgs) (t : Mod) :
+    (quantizeTree a t).skeleton = t.skeleton ∧ (quantizeTree a t).ids = t.ids :=
+  ⟨skeleton_quantizeTree a t, ids_quantizeTree a t⟩
+
+/-! ### T3 — a configuration changes only on a selected eligible leaf -/
+
+theorem C08_only_eligible_change (a : QuantizeArgs) (t : Mod) (path : List String) (id : Nat)
+    (k : LeafKind) (q q' : Option QCfg)
+    (h' : (quantizeTree a t).at? path = some (.leaf id k q'))
+    (h : t.at? path = some (.leaf id k q)) (hne : q' ≠ q) :
+    selected a id = true ∧ eligible a k = true ∧ q' = some (twinCfg a k) := by
+  have hs := C08_exact_swap_leaf a t path id k q h
+  rw [h'] at hs
+  by_cases hc : (selected a id && eligible a k) = true
+  · rw [if_pos hc] at hs
+    simp only [Option.some.injEq, Mod.leaf.injEq, true_and] at hs
+    simp only [Bool.and_eq_true] at hc
+    exact ⟨hc.1, hc.2, hs⟩
+  · rw [if_neg hc] at hs
+    simp only [Option.some.injEq, Mod.leaf.injEq, true_and] at hs
+    exact absurd hs hne
+
+/-- conversely an unselected or ineligible leaf keeps its configuration, wherever it sits -/
+theorem C08_unselected_kept_at (a : QuantizeArgs) (t : Mod) (path : List String) (id : Nat)
+    (k : LeafKind) (q : Option QCfg) (h : t.at? path = some (.leaf id k q))
+    (hc : selected a id = false ∨ eligible a k = false) :
+    (quantizeTree a t).at? path = some (.leaf id k q) := by
+  rw [C08_exact_swap_leaf a t path id k q h]
+  rcases hc with hc | hc <;> simp [hc]
+
+/-! ### T4 — LayerNorm and unregistered classes -/
+
+theorem C08_layernorm_needs_activations (a : QuantizeArgs) (id : Nat) (q : Option QCfg)
+    (h : a.activations = none) : quantizeTree a (.leaf id .layerNorm q) = .leaf id .layerNorm q := by
+  simp [quantizeTree, eligible, h]
+
+theorem C08_layernorm_never_quantizes_weights (a : QuantizeArgs) :
+    (twinCfg a .layerNorm).weights = none := rfl
+
+theorem C08_other_untouched (a : QuantizeArgs) (id : Nat) (c : String) (q : Option QCfg) :
+    quantizeTree a (.leaf id (.other c) q) = .leaf id (.other c) q := by
+  simp [quantizeTree, eligible]
+
+/-- Linear / Conv2d twins carry both requested qtypes -/
+theorem C08_linear_conv_twin (a : QuantizeArgs) (id : Nat) (k : LeafKind) (q : Option QCfg)
+    (hk : k = .linear ∨ k = .conv2d) (hs : selected a id = true) :
+    quantizeTree a (.leaf id k q) = .leaf id k (some ⟨a.weights, a.activations⟩) := by
+  rcases hk with rfl | rfl <;> simp [quantizeTree, eligible, twinCfg, hs]
+
+/-! ### T5 — idempotence -/
+
+theorem C08_quantize_idempotent (a : QuantizeArgs) (t : Mod) :
+    quantizeTree a (quantizeTree a t) = quantizeTree a t :=
+  quantizeTree_idem a t
+
+/-! ### T6 — the decision table of `QModuleMixin.forward` -/
+
+theorem C08_forward_cases (kind : LeafKind) (hk : kind = .linear ∨ kind = .conv2d) :
+    (∀ inp o, forwardTrace kind false inp o = [.qforward]) ∧
+    forwardTrace kind true .float none = [.quantizeInput, .qforward, .quantizeOutput] ∧
+    forwardTrace kind true .quantSameQtype none = [.qforward, .quantizeOutput] ∧
+    (∀ o, ∃ rest, forwardTrace kind true .quantOther o = .requantInput :: .qforward :: rest) := by
+  rcases hk with rfl | rfl
+  · refine ⟨?_, by decide, by decide, ?_⟩
+    · intro inp o; cases inp <;> rcases o with _ | _ | _ <;> decide
+    · intro o; rcases o with _ | _ | _ <;> exact ⟨_, rfl⟩
+  · refine ⟨?_, by decide, by decide, ?_⟩
+    · intro inp o; cases inp <;> rcases o with _ | _ | _ <;> decide
+    · intro o; rcases o with _ | _ | _ <;> exact ⟨_, rfl⟩
+
+/-- the output side of the table: nothing / requantize / quantize according to what `qforward` returned -/
+theorem C08_forward_output_cases (kind : LeafKind) (inp : InKind) :
+    (forwardTrace kind true inp (some true)).getLast? = some .qforward ∧
+    forwardTrace kind true inp (some false) = forwardTrace kind true inp (some true) ++ [.requantOutput] ∧
+    forwardTrace kind true inp none = forwardTrace kind true inp (some true) ++ [.quantizeOutput] := by
+  simp [forwardTrace]
+
+/-- QLayerNorm (and any non Linear/Conv2d kind) never quantizes its input: its `qforward` is the
+float `layer_norm` applied to the dequantized input -/
+theorem C08_forward_layernorm (acts : Bool) (inp : InKind) (o : Option Bool) :
+    Step.quantizeInput ∉ forwardTrace .layerNorm acts inp o := by
+  cases acts <;> cases inp <;> rcases o with _ | _ | _ <;> decide
+
+/-- every trace runs `qforward` exactly once -/
+theorem C08_forward_once (kind : LeafKind) (acts : Bool) (inp : InKind) (o : Option Bool) :
+    (forwardTrace kind acts inp o).count .qforward = 1 := by
+  cases kind <;> cases acts <;> cases inp <;> rcases o with _ | _ | _ <;> simp [forwardTrace]
+
+/-! ### non-vacuity: a three-level model, filter `[1, 3]`, no activation quantization -/
+
+def C08_exTree : Mod :=
+  .node 0 "Sequential"
+    [("0", .leaf 1 .linear none),
+     ("1", .node 2 "Block" [("c0", .leaf 3 .layerNorm none), ("c1", .leaf 4 (.other "ReLU") none)])]
+
+def C08_exArgs : QuantizeArgs := ⟨some [1, 3], some .qint8, none⟩
+
+example : quantizeTree C08_exArgs C08_exTree =
+    .node 0 "Sequential"
+      [("0", .leaf 1 .linear (some ⟨some .qint8, none⟩)),
+       ("1", .node 2 "Block" [("c0", .leaf 3 .layerNorm none), ("c1", .leaf 4 (.other "ReLU") none)])] := by
+  decide
+
+example : C08_exTree.at? ["1", "c0"] = some (.leaf 3 .layerNorm none) := by decide
+example : (quantizeTree C08_exArgs C08_exTree).at? ["1", "c0"] = some (.leaf 3 .layerNorm none) := by decide
+example : (quantizeTree C08_exArgs C08_exTree).at? ["0"] =
+    some (.leaf 1 .linear (some ⟨some .qint8, none⟩)) := by decide
+example : (quantizeTree C08_exArgs C08_exTree).at? ["1", "zz"] = none := by decide
+example : C08_exTree.ids = [0, 1, 2, 3, 4] := by decide
+example : (quantizeTree C08_exArgs C08_exTree).skeleton = C08_exTree.skeleton := by decide
+/-- with activations the selected LayerNorm is swapped too, without weight quantization -/
+example : (quantizeTree ⟨some [1, 3], some .qint8, some .qint8⟩ C08_exTree).at? ["1", "c0"] =
+    some (.leaf 3 .layerNorm (some ⟨none, some .qint8⟩)) := by decide
+/-- the hypotheses of `C08_only_eligible_change` are met at path `["0"]` -/
+example : selected C08_exArgs 1 = true ∧ eligible C08_exArgs .linear = true ∧
+    (some ⟨some .qint8, none⟩ : Option QCfg) = some (twinCfg C08_exArgs .linear) :=
+  C08_only_eligible_change C08_exArgs C08_exTree ["0"] 1 .linear none _ (by decide) (by decide) (by decide)
 
 end Quanto
